@@ -4,15 +4,19 @@ import json, os, sys
 HERE = os.path.dirname(os.path.dirname(os.path.abspath(__file__)))
 sys.path.insert(0, HERE)
 from props.meta import META
-from props.manifest_text import TEXT, NOT_APPLICABLE, SOURCE_COMMITS
+from props.static import NOT_APPLICABLE, SOURCE_COMMITS
 
+NOTE = ("Trusted: CPython 3.12 semantics, the stdlib (itertools, fractions, "
+        "struct, wave, threading), and the independent reference oracle in "
+        "props/%s.py. Held = no monitor fired on the executions of this run; "
+        "it says nothing about inputs/histories/schedules not generated.")
 props = [json.loads(l) for l in open(os.path.join(HERE, "properties.jsonl"))]
 ids = [p["id"] for p in props]
 checks = []
 for pid in ids:
-  if pid not in META or pid not in TEXT:
+  if pid not in META:
     continue
-  t = TEXT[pid]
+  t = META[pid]
   checks.append({
     "property_id": pid,
     "quick_cmd": "./check %s --tier quick" % pid,
@@ -23,7 +27,7 @@ for pid in ids:
     "level_claimed": {"category": META[pid].get("level", "exploration"),
                       "text": t["level_text"],
                       "design_ref": "DESIGN.md section 4, %s" % pid},
-    "level_note": t["level_note"],
+    "level_note": NOTE % pid.lower(),
     "technique": t["technique"],
   })
 na = [{"property_id": pid, "reason": NOT_APPLICABLE.get(
